@@ -70,8 +70,8 @@ def mutate(rng, fr, prec=None):
         v = c['cells'][ri]
         t = cx.FAMILIES[c['fam']]
         if kind == 'value-small':
-            if t != 'real' or v is None:
-                return g, 'none', None
+            if t != 'real' or v is None or c['fam'] == 'float32':
+                return g, 'none', None         # (a float32 cell cannot hold v + 1e-9: the frames would be identical)
             c['cells'][ri] = v + 1e-9          # below any tested precision
             return g, kind, (c['name'], ri)
         if v is None:
